@@ -112,29 +112,48 @@ class _ExitTr:
         bad = TranslateError(f'{self.where}: unsupported call `{ast.unparse(call)}` (line {call.lineno})')
         if not isinstance(f, ast.Attribute):
             raise bad
-        kw = {k.arg: k.value for k in call.keywords}
-        if isinstance(f.value, ast.Name) and f.value.id in ('os', '_os'):
-            if kw:
+        if any(k.arg is None for k in call.keywords):
+            raise bad
+
+        def bind(params: list[str], optional: int = 0) -> list[ast.expr | None]:
+            """Positional and keyword arguments -> one value per parameter (the last `optional` ones may be missing)."""
+            vals: dict[str, ast.expr] = dict(zip(params, call.args))
+            if len(call.args) > len(params):
                 raise bad
-            if f.attr in ('replace', 'rename') and len(call.args) == 2:
-                return f'(SCall MReplace {self.expr(call.args[0])} [{self.expr(call.args[1])}] false)'
-            if f.attr in ('unlink', 'remove') and len(call.args) == 1:
-                return f'(SCall MUnlink {self.expr(call.args[0])} [] false)'
+            for k in call.keywords:
+                if k.arg not in params or k.arg in vals:
+                    raise bad
+                vals[k.arg] = k.value
+            if any(p not in vals for p in params[:len(params) - optional]):
+                raise bad
+            return [vals.get(p) for p in params]
+
+        if isinstance(f.value, ast.Name) and f.value.id in ('os', '_os'):
+            if f.attr in ('replace', 'rename'):
+                src, dst = bind(['src', 'dst'])
+                return f'(SCall MReplace {self.expr(src)} [{self.expr(dst)}] false)'
+            if f.attr in ('unlink', 'remove'):
+                path, = bind(['path'])
+                return f'(SCall MUnlink {self.expr(path)} [] false)'
             raise bad
         recv = self.expr(f.value)
-        if f.attr == '__exit__' and len(call.args) == 3 and not kw:
-            for a in call.args:
+        if f.attr == '__exit__':
+            for a in bind(['exc_type', 'exc_value', 'traceback']) if call.keywords else call.args:
                 self.expr(a)          # must be known values; a file object's __exit__ closes whatever they are
+            if len(call.args) + len(call.keywords) != 3:
+                raise bad
             return f'(SCall MClose {recv} [] false)'
-        if f.attr == 'close' and not call.args and not kw:
+        if f.attr == 'close':
+            bind([])
             return f'(SCall MClose {recv} [] false)'
-        if f.attr == 'unlink' and not call.args and set(kw) <= {'missing_ok'}:
-            mo = kw.get('missing_ok')
+        if f.attr == 'unlink':
+            mo, = bind(['missing_ok'], optional=1)
             if mo is not None and not (isinstance(mo, ast.Constant) and isinstance(mo.value, bool)):
                 raise bad
             return f'(SCall MUnlink {recv} [] {"true" if mo is not None and mo.value else "false"})'
-        if f.attr in ('replace', 'rename') and len(call.args) == 1 and not kw:
-            return f'(SCall MReplace {recv} [{self.expr(call.args[0])}] false)'
+        if f.attr in ('replace', 'rename'):
+            target, = bind(['target'])
+            return f'(SCall MReplace {recv} [{self.expr(target)}] false)'
         raise bad
 
     def classes(self, t: ast.expr | None) -> str:
@@ -427,6 +446,124 @@ def inline_helpers(fn: ast.FunctionDef, methods: dict[str, ast.FunctionDef], dep
     return new
 
 
+# ------------------------------------------------------------------------------------------- normalisation: locals
+PURE_METHODS = {'with_name', 'joinpath', 'format'}
+PURE_FUNCS = {'str', 'Path', 'PurePath'}
+
+
+def inline_locals(fn: ast.FunctionDef) -> ast.FunctionDef:
+    """Substitute locals that are assigned exactly once, at the top level of the function body or of a `for` body, from
+    a side-effect-free expression over constants, the loop variable, attributes of self that the function never
+    assigns, and other such locals (`folder = self.filename.parent`, `name = f'tmp_{i}'`, `mode = 'xb' if .. else 'xt'`),
+    when every use follows the assignment inside the same statement list.  The analyses below then see the same
+    expressions whether or not a sub-expression was given a name.  Anything else is left alone."""
+    fn = _clone(fn)
+    nstore: dict[str, int] = {}
+    for n in ast.walk(fn):
+        if isinstance(n, ast.Name) and isinstance(n.ctx, (ast.Store, ast.Del)):
+            nstore[n.id] = nstore.get(n.id, 0) + 1
+        elif isinstance(n, ast.ExceptHandler) and n.name:
+            nstore[n.name] = nstore.get(n.name, 0) + 2
+        elif isinstance(n, (ast.Global, ast.Nonlocal)):
+            return fn
+    params = {a.arg for a in fn.args.args + fn.args.kwonlyargs + fn.args.posonlyargs}
+    attr_stores = {_key(n) for n in ast.walk(fn) if isinstance(n, ast.Attribute) and isinstance(n.ctx, (ast.Store, ast.Del))}
+    loop_vars = {n.target.id for n in ast.walk(fn) if isinstance(n, ast.For) and isinstance(n.target, ast.Name)}
+
+    def pure(e: ast.AST, names: set[str]) -> bool:
+        if isinstance(e, ast.Constant):
+            return True
+        if isinstance(e, ast.Name):
+            return e.id in names
+        if isinstance(e, ast.Attribute):
+            k = _key(e)
+            if k is not None and k.startswith('self.'):
+                return k not in attr_stores
+            return pure(e.value, names)
+        if isinstance(e, ast.JoinedStr):
+            return all(pure(v, names) for v in e.values)
+        if isinstance(e, ast.FormattedValue):
+            return pure(e.value, names) and (e.format_spec is None or pure(e.format_spec, names))
+        if isinstance(e, ast.BinOp) and isinstance(e.op, (ast.Div, ast.Add, ast.Mod)):
+            return pure(e.left, names) and pure(e.right, names)
+        if isinstance(e, ast.IfExp):
+            return pure(e.test, names) and pure(e.body, names) and pure(e.orelse, names)
+        if isinstance(e, ast.Call) and not e.keywords and all(pure(a, names) for a in e.args):
+            f = e.func
+            if isinstance(f, ast.Attribute) and f.attr in PURE_METHODS:
+                return pure(f.value, names)
+            return isinstance(f, ast.Name) and f.id in PURE_FUNCS
+        return False
+
+    def loads(nodes: list[ast.AST], x: str) -> int:
+        return sum(isinstance(n, ast.Name) and n.id == x and isinstance(n.ctx, ast.Load) for b in nodes for n in ast.walk(b))
+
+    total = {x: loads([fn], x) for x in nstore}
+    changed = True
+    while changed:
+        changed = False
+        bodies: list[tuple[list[ast.stmt], set[str]]] = [(fn.body, set())]
+        bodies += [(n.body, {n.target.id}) for n in ast.walk(fn) if isinstance(n, ast.For) and isinstance(n.target, ast.Name)]
+        for body, extra in bodies:
+            for i, st in enumerate(body):
+                if not (isinstance(st, ast.Assign) and len(st.targets) == 1 and isinstance(st.targets[0], ast.Name)):
+                    continue
+                x = st.targets[0].id
+                if nstore.get(x) != 1 or x in params or x in loop_vars or not pure(st.value, extra):
+                    continue
+                rest = body[i + 1:]
+                if loads(rest, x) != total.get(x, 0) or loads([st.value], x):
+                    continue            # used before the assignment, or outside this statement list
+                sub = _Subst({x: st.value}, {})
+                body[i + 1:] = [sub.visit(r) for r in rest]
+                del body[i]
+                if not body:
+                    body.append(ast.copy_location(ast.Pass(), st))
+                nstore[x] = 0
+                changed = True
+                break
+            if changed:
+                break
+    ast.fix_missing_locations(fn)
+    return fn
+
+
+def tmp_template(e: ast.AST, var: str) -> bool:
+    """Is `e` the name "tmp_<var>" (decimal)?  f'tmp_{i}', 'tmp_' + str(i), 'tmp_%d' % i, 'tmp_{}'.format(i)."""
+    is_var = lambda n: isinstance(n, ast.Name) and n.id == var
+    if isinstance(e, ast.JoinedStr):
+        return (len(e.values) == 2 and isinstance(e.values[0], ast.Constant) and e.values[0].value == 'tmp_'
+                and isinstance(e.values[1], ast.FormattedValue) and is_var(e.values[1].value)
+                and e.values[1].format_spec is None and e.values[1].conversion == -1)
+    if isinstance(e, ast.BinOp) and isinstance(e.op, ast.Add):
+        return (isinstance(e.left, ast.Constant) and e.left.value == 'tmp_' and isinstance(e.right, ast.Call)
+                and isinstance(e.right.func, ast.Name) and e.right.func.id == 'str' and len(e.right.args) == 1
+                and not e.right.keywords and is_var(e.right.args[0]))
+    if isinstance(e, ast.BinOp) and isinstance(e.op, ast.Mod):
+        r = e.right.elts[0] if isinstance(e.right, ast.Tuple) and len(e.right.elts) == 1 else e.right
+        return isinstance(e.left, ast.Constant) and e.left.value in ('tmp_%d', 'tmp_%s', 'tmp_%i') and is_var(r)
+    if isinstance(e, ast.Call) and isinstance(e.func, ast.Attribute) and e.func.attr == 'format':
+        return (isinstance(e.func.value, ast.Constant) and e.func.value.value in ('tmp_{}', 'tmp_{0}')
+                and len(e.args) == 1 and not e.keywords and is_var(e.args[0]))
+    return False
+
+
+def sibling_name(v: ast.AST) -> tuple[ast.AST, bool] | None:
+    """`v` names a file next to the destination: self.filename.with_name(X) (X cannot contain a separator: with_name
+    refuses it), self.filename.parent / X or self.filename.parent.joinpath(X) (X may be a path of its own: the caller
+    must also know what X is).  Returns (X, X is certainly a bare name)."""
+    def is_parent(e: ast.AST) -> bool:
+        return isinstance(e, ast.Attribute) and e.attr == 'parent' and _key(e.value) == 'self.filename'
+    if isinstance(v, ast.Call) and isinstance(v.func, ast.Attribute) and len(v.args) == 1 and not v.keywords:
+        if v.func.attr == 'with_name' and _key(v.func.value) == 'self.filename':
+            return v.args[0], True
+        if v.func.attr == 'joinpath' and is_parent(v.func.value):
+            return v.args[0], False
+    if isinstance(v, ast.BinOp) and isinstance(v.op, ast.Div) and is_parent(v.left):
+        return v.right, False
+    return None
+
+
 def _handler_names(h: ast.ExceptHandler, where: str) -> set[str] | None:
     if h.type is None:
         return None
@@ -507,9 +644,9 @@ def _tempfile_facts(fn: ast.FunctionDef) -> dict:
                 for m in mode_values(marg[0], ch.lineno):
                     modes.append((m, ch.lineno, in_loop and catches))
         if isinstance(ch, ast.Assign) and len(ch.targets) == 1 and _key(ch.targets[0]) == 'self._temp_name':
-            v = ch.value
-            ok = (isinstance(v, ast.Call) and isinstance(v.func, ast.Attribute) and v.func.attr == 'with_name'
-                  and _key(v.func.value) == 'self.filename')
+            sn = sibling_name(ch.value)
+            loopv = [n.target.id for n in ast.walk(fn) if isinstance(n, ast.For) and isinstance(n.target, ast.Name)]
+            ok = sn is not None and (sn[1] or any(tmp_template(sn[0], lv) for lv in loopv))
             sibling = ok if sibling is None else (sibling and ok)
 
     walk(fn, False, False)
@@ -563,14 +700,9 @@ def _loop_facts(fn: ast.FunctionDef) -> dict:
     # name template: self._temp_name = self.filename.with_name(f'tmp_{<var>}')
     template_ok = False
     for n in ast.walk(loop):
-        if isinstance(n, ast.Assign) and len(n.targets) == 1 and _key(n.targets[0]) == 'self._temp_name' \
-                and isinstance(n.value, ast.Call) and len(n.value.args) == 1:
-            a = n.value.args[0]
-            template_ok = (isinstance(a, ast.JoinedStr) and len(a.values) == 2
-                           and isinstance(a.values[0], ast.Constant) and a.values[0].value == 'tmp_'
-                           and isinstance(a.values[1], ast.FormattedValue) and isinstance(a.values[1].value, ast.Name)
-                           and a.values[1].value.id == var and a.values[1].format_spec is None
-                           and a.values[1].conversion == -1)
+        if isinstance(n, ast.Assign) and len(n.targets) == 1 and _key(n.targets[0]) == 'self._temp_name':
+            sn = sibling_name(n.value)
+            template_ok = sn is not None and tmp_template(sn[0], var)
     # the destination itself is skipped: if self._temp_name == self.filename: continue
     skip_dest = False
     for n in loop.body:
@@ -664,8 +796,7 @@ def _object_facts(cls: ast.ClassDef, fns: dict[str, ast.FunctionDef], attr_slots
         for loop in loops:
             for st in loop.body:
                 if isinstance(st, ast.Assign) and len(st.targets) == 1 and _key(st.targets[0]) == 'self._temp_name' \
-                        and isinstance(st.value, ast.Call) and isinstance(st.value.func, ast.Attribute) \
-                        and st.value.func.attr == 'with_name':
+                        and sibling_name(st.value) is not None:
                     enter['self._temp_name'] = 'VTName'
                 if isinstance(st, ast.Try):
                     bound = False
@@ -862,6 +993,8 @@ def translate() -> tuple[str, dict]:
     # normalisation: calls of ordinary methods of the class are replaced by their bodies
     for name in ('make_tempfile', '__enter__', '__exit__'):
         fns[name] = inline_helpers(fns[name], fns)
+    # ... and single-assignment locals of make_tempfile by their defining expressions
+    fns['make_tempfile'] = inline_locals(fns['make_tempfile'])
     prog, slot_names, attr_slots = _exit_prog_attrs(fns['__exit__'])
     tf = _tempfile_facts(fns['make_tempfile'])
     # __enter__ must create the temp file and hand out the temp handle
